@@ -1,10 +1,10 @@
 use std::{fs::OpenOptions, io::Write};
 
+#[cfg(feature = "verif")]
+use crate::verif_locks::RwLock;
 use emmylua_code_analysis::load_configs_raw;
 use lsp_types::Command;
 use serde_json::Value;
-#[cfg(feature = "verif")]
-use crate::verif_locks::RwLock;
 #[cfg(not(feature = "verif"))]
 use tokio::sync::RwLock;
 
